@@ -403,6 +403,7 @@ def run(ctx):
     texts = []
     agent_ids = ops.shuffle(["0", "1", "a", "rover-1", "rover-2", "truck-a", "truck-b", "x_1", "a1", "a10"])[:nfiles]
     ctx.agent_ids = agent_ids
+    privates = []
     for i, F in enumerate(files):
         private = None
         if len(F["predicates"]) >= 2 and ops.draw(3) == 0:
@@ -411,6 +412,7 @@ def run(ctx):
             names_ = sorted(F["predicates"])
             private = ([n for n in names_ if ops.draw(2)], ops.draw(len(names_) + 1))
             ctx.probes["agent_file_with_private_group"] += 1
+        privates.append(private)
         txt = G.render_domain(F, private=private)
         texts.append(txt)
         fs.write_real(ddir / f"domain-{agent_ids[i]}.pddl", txt)
@@ -494,6 +496,29 @@ def run(ctx):
                             f"{c08.vocab_diff(first[0], key[0])}")
         ctx.log("order", o, "ok")
     check_bystanders("after locate_domains")
+    # ---- history: one agent file is regenerated with other content of exactly the same size (an action gets another
+    # name of the same length); the SAME converter object combines again and must see the files as they are now (on a
+    # file system whose timestamps do not advance, size and mtime of the file are unchanged)
+    if cfg.chance(1, 3):
+        i = ops.draw(nfiles)
+        acts = sorted(files[i]["actions"])
+        used = {a for F in files for a in F["actions"]}
+        if acts:
+            a = acts[ops.draw(len(acts))]
+            b = a[:-1] + ("z" if a[-1] != "z" else "y")
+            if b not in used:
+                F2 = dict(files[i], actions={(b if k == a else k): v for k, v in files[i]["actions"].items()})
+                files2 = files[:i] + [F2] + files[i + 1:]
+                pth = ddir / f"domain-{agent_ids[i]}.pddl"
+                fs.write_real(pth, G.render_domain(F2, private=privates[i]))
+                try:
+                    comb2 = conv.locate_domains(add_dummy_actions=dummy)
+                except Exception as e:
+                    raise Violation("C17/combine-raised", "locate_domains", f"{type(e).__name__}: {e}")
+                check_union(ctx, walker.w_domain(comb2), union_vocab(files2), W, dummy,
+                            f"same converter, after domain-{agent_ids[i]}.pddl was regenerated with the same size")
+                fs.write_real(pth, texts[i])
+                ctx.probes["agent_file_regenerated_same_size"] += 1
     # ---- export the combination (fault plan), re-parse
     out = ctx.dir("out")
     plan = ["ack", "ack", "error", "crash"][f.draw(4)]
